@@ -9,12 +9,14 @@ import logging
 import os
 import pickle
 import sys
+import types
 
 sys.path.insert(0, os.path.dirname(os.path.abspath(__file__)))
 import dlib  # noqa: E402
 
 logging.disable(logging.CRITICAL)
 
+from traits.api import ABCHasStrictTraits, ABCHasTraits  # noqa: E402
 from traits.api import (  # noqa: E402
     Any, CInt, Constant, DelegatesTo, Disallow, Event, List, Map, HasPrivateTraits, HasStrictTraits, HasTraits, Int,
     Python, ReadOnly, Str, Undefined, observe,
@@ -71,6 +73,8 @@ def round_trip(t, how):
 
 def mk(pol):
     k = pol[0]
+    if k == "Default":  # ["Default", value, expected definition]: a plain class attribute `name = value` in the class
+        return val(pol[1])  # body, giving a new default to the trait inherited from the first base that has the name
     if k == "RT":       # ["RT", how, definition]: the definition after a state round trip
         return round_trip(mk(pol[2]), pol[1])
     if k == "Python":
@@ -130,8 +134,21 @@ def make_listener(table):
     return observe("trait_added")(_declare)
 
 
+# library classes a case may name instead of declaring them: what the case declares for them (and the model
+# takes) is what their documentation promises, checked here against nothing — the check is the comparison of
+# the behaviour of their subclasses with the model (C13-v1: ABCHasStrictTraits "behaves like HasStrictTraits")
+LIB = {"ABCHasTraits": (ABCHasTraits, [], [HasTraits]),
+       "ABCHasStrictTraits": (ABCHasStrictTraits, [["_", ["Disallow"]]], [ABCHasTraits])}
+
+
 def create(classes, cds, listener_at=None, table=None):
     for cd in cds:
+        if cd.get("lib"):
+            cls, decls, bases = LIB[cd["lib"]]
+            if cd["decls"] != decls or [classes[b] for b in cd["bases"]] != bases:
+                raise ValueError("library class %s must be described as %r over %r" % (cd["lib"], decls, bases))
+            classes.append(cls)
+            continue
         ns = {}
         if table and len(classes) == listener_at:
             ns["_declare"] = make_listener(table)
@@ -140,7 +157,8 @@ def create(classes, cds, listener_at=None, table=None):
                 raise ValueError("duplicate declaration " + n)
             ns[n] = mk(pol)
         bases = tuple(classes[b] for b in cd["bases"])
-        classes.append(type(HasTraits)("K%d" % len(classes), bases, ns))
+        # types.new_class: the most derived metaclass of the bases (ABCMetaHasTraits under the ABC variants)
+        classes.append(types.new_class("K%d" % len(classes), bases, {}, lambda d, ns=ns: d.update(ns)))
 
 
 MISSING = object()
@@ -254,12 +272,12 @@ def run_case_staged(case):
     hist = []
     if early:
         k = case["precls"]
-        if k < len(ROOTS) or k >= len(classes):
+        if k < len(ROOTS) or k >= len(classes) or cds[k - len(ROOTS)].get("lib"):
             raise ValueError("the early instance must be of a freshly created, already existing class")
         hist += execute(classes[k](), early)
     create(classes, cds[len(cds) - nlate:], case["cls"], table)
     k = case["cls"]
-    if k < len(ROOTS):
+    if k < len(ROOTS) or cds[k - len(ROOTS)].get("lib"):
         raise ValueError("the instance must be of a freshly created class")
     first = classes[k]()
     panel = None
